@@ -63,8 +63,19 @@ func ruleC02(c *Ctx, r *Report) {
 	// paths and return table entries; whether an input string may enter them is judged
 	// at the call sites (only '$' field paths and FieldName / Namespace positions may)
 	lookupFns := map[*ssa.Function]bool{}
-	for _, n := range []string{"getOp", "traverseMapPath"} {
-		if f := c.Fn(n); f != nil {
+	for f := range p.Zone {
+		// by role: takes a key path ([]string), returns (table entry, found)
+		res := f.Signature.Results()
+		if res.Len() != 2 || !isEmptyInterface(res.At(0).Type()) || !isBoolType(res.At(1).Type()) {
+			continue
+		}
+		hasPath := false
+		for _, prm := range f.Params {
+			if isStringSliceT(prm.Type()) {
+				hasPath = true
+			}
+		}
+		if hasPath {
 			for g := range c.pkgReach(f) {
 				lookupFns[g] = true
 			}
